@@ -90,6 +90,10 @@ def gen_case(rng, ty, long_rays):
         else:
             ops.append("O %s" % hf(o))
             ops.append("%s %s" % (rng.choice(["E", "E", "SE", "IT"]), hf(e)))
+            if rng.random() < 0.3:
+                # the same end point again on the same origin: cast(end) must set the ray up again (the first cast
+                # consumed the stored crossing parameters), a "nothing changed, skip the set-up" shortcut must not
+                ops.append("E %s" % hf(e))
         if rng.random() < 0.25:
             ops.append("K")               # cast() re-use: advances the stored crossing parameters
     # history independence: repeat the first ray at the end, after everything else
